@@ -16,6 +16,33 @@ def tyMods : TyId → List TypeMod | .mk m _ _ _ => m
 def TyHeadDead (sym : Bool) (t : Tok) : Prop :=
   modBeforeStep t = .stop ∧ ∀ n, t = .id n → (sym = true ∧ W.contains n = false)
 
+/-- the type starts with a keyword modifier -/
+def kwModHead (ty : TyId) : Bool :=
+  match tyMods ty with
+  | m :: _ => (match modTok m with | .p _ => true | _ => false)
+  | [] => false
+
+theorem kwModHead_spec (ty : TyId) (h : kwModHead ty = true) : ∃ m ms k, tyMods ty = m :: ms ∧ modTok m = .p k := by
+  unfold kwModHead at h
+  split at h
+  · rename_i m ms heq
+    split at h
+    · rename_i k hk; exact ⟨m, ms, k, heq, hk⟩
+    · cases h
+  · cases h
+
+/-- decidable form, on the printed tokens -/
+def tyHeadDeadB (sym : Bool) : List Tok → Bool
+  | [] => false
+  | t :: _ => decide (modBeforeStep t = .stop) && (match t with | .id n => sym && !W.contains n | _ => true)
+
+theorem tyHeadDead_of_B (sym : Bool) (t : Tok) (ts : List Tok) (h : tyHeadDeadB W sym (t :: ts) = true) :
+    TyHeadDead W sym t := by
+  simp only [tyHeadDeadB, Bool.and_eq_true, decide_eq_true_eq] at h
+  refine ⟨h.1, fun n hn => ?_⟩
+  subst hn
+  simpa using h.2
+
 -- `WF`: the trees the round-trip theorem covers (see the doc comment of `Thm.C09.roundtrip_xexpr_partial`)
 mutual
 def WF : XExpr → Prop
@@ -34,11 +61,11 @@ def WFA : XArgs → Prop
   | .cons e r => WF e ∧ WFA r
 def WFArg : Bool → TArg → Prop
   | sym, .e x => WF x ∧ gtFree x = true ∧ x.lvl ≤ 14 ∧ hasLt x = false ∧
-      (∀ t ts, toks (fmtBodyX x) = t :: ts → TyHeadDead W sym t)
+      tyHeadDeadB W sym (toks (fmtBodyX x)) = true
   | sym, .both x t => ∃ n, x = .id n ∧ t = .mk [] n .nil .empty ∧ modBeforeStep (.id n) = .stop ∧
       (sym = true → W.contains n = true)
   | sym, .t ty => WFTy ty ∧ (sym = true → W.contains (tyName ty) = true) ∧
-      (match ty with | .mk _ _ _ d => d.abstr = true) ∧ ∃ m ms k, tyMods ty = m :: ms ∧ modTok m = .p k
+      (match ty with | .mk _ _ _ d => d.abstr = true) ∧ kwModHead ty = true
 def WFTArgs : TArgs → Prop
   | .nil => True
   | .cons a r => WFArg false a ∧ WFTArgs r
